@@ -1153,7 +1153,10 @@ class Interp:
         kwargs = {}
         for k in node.keywords:
             if k.arg is None:
-                kwargs.update(self.eval(k.value, env, mod))
+                kv = self.eval(k.value, env, mod)
+                if isinstance(kv, ModelObject) and hasattr(kv, "pv_mapping"):
+                    kv = kv.pv_mapping(self.cx)
+                kwargs.update(kv)
             else:
                 kwargs[k.arg] = self.eval(k.value, env, mod)
         self.cx.loc = f"{mod.path.name}:{node.lineno}"
